@@ -232,6 +232,173 @@ fn case(owner: &str, n: usize, held: &str, acc: &str) -> (Vec<bool>, Vec<bool>) 
 	}
 }
 
+/// operations on a LIVE guard that are not acquisitions (Debug, Display, Hash, Deref, DerefMut, AsRef, AsMut): the member
+/// locks must stay held exactly as they were while the guard lives, the call must not wait, and dropping the guard
+/// afterwards must free everything.  `probe` sees the member locks from another thread.
+macro_rules! guard_ops {
+	($g:ident, $acc:expr, display = $disp:expr, mutable = $mutable:expr) => {{
+		use std::hash::{Hash, Hasher};
+		match $acc {
+			"g_fmt" => drop(format!("{:?}", $g)),
+			"g_hash" => {
+				let mut h = std::collections::hash_map::DefaultHasher::new();
+				$g.hash(&mut h);
+				drop(h.finish());
+			}
+			"g_deref" => drop(format!("{:?}", &*$g)),
+			"g_as_ref" => drop(format!("{:?}", $g.as_ref())),
+			a => panic!("guard accessor {a}"),
+		}
+	}};
+}
+
+fn guard_case(owner: &str, n: usize, held: &str, acc: &str) -> (Vec<bool>, Vec<bool>) {
+	let key = ThreadKey::get().unwrap();
+	let free_after = |held_after: Vec<bool>| held_after.into_iter().map(|b| !b).collect::<Vec<bool>>();
+	match owner {
+		"mutex" => {
+			let m = Mutex::new(7u32);
+			let mut g = m.lock(key);
+			let mut before = vec![held_m(&m)];
+			match acc {
+				"g_display" => drop(format!("{}", g)),
+				"g_deref_mut" => *g += 1,
+				"g_as_mut" => *g.as_mut() += 1,
+				a => guard_ops!(g, a, display = true, mutable = true),
+			}
+			let mut after = vec![held_m(&m)];
+			drop(g);
+			before.push(true);
+			after.extend(free_after(vec![held_m(&m)]));
+			(before, after)
+		}
+		"rwlock" => {
+			let m = RwLock::new(7u32);
+			let mut before;
+			let mut after;
+			if held == "gsh" {
+				let g = m.read(key);
+				before = vec![held_r(&m)];
+				match acc {
+					"g_display" => drop(format!("{}", g)),
+					a => guard_ops!(g, a, display = true, mutable = false),
+				}
+				after = vec![held_r(&m)];
+				drop(g);
+			} else {
+				let mut g = m.write(key);
+				before = vec![held_r(&m)];
+				match acc {
+					"g_display" => drop(format!("{}", g)),
+					"g_deref_mut" => *g += 1,
+					"g_as_mut" => *g.as_mut() += 1,
+					a => guard_ops!(g, a, display = true, mutable = true),
+				}
+				after = vec![held_r(&m)];
+				drop(g);
+			}
+			before.push(true);
+			after.extend(free_after(vec![held_r(&m)]));
+			(before, after)
+		}
+		"poison" => {
+			let p = Poisonable::new(Mutex::new(7u32));
+			let probe = |p: &Poisonable<Mutex<u32>>| {
+				std::thread::scope(|s| {
+					s.spawn(|| {
+						let key = ThreadKey::get().unwrap();
+						match p.try_lock(key) {
+							Ok(g) => {
+								drop(g);
+								false
+							}
+							Err(TryLockPoisonableError::Poisoned(e)) => {
+								drop(e.into_inner());
+								false
+							}
+							Err(TryLockPoisonableError::WouldBlock(_)) => true,
+						}
+					})
+					.join()
+					.unwrap()
+				})
+			};
+			let mut g = match p.lock(key) {
+				Ok(g) => g,
+				Err(e) => e.into_inner(),
+			};
+			let mut before = vec![probe(&p)];
+			match acc {
+				"g_display" => drop(format!("{}", g)),
+				"g_deref_mut" => *g += 1,
+				"g_as_mut" => **g.as_mut() += 1,
+				a => guard_ops!(g, a, display = true, mutable = true),
+			}
+			let mut after = vec![probe(&p)];
+			drop(g);
+			before.push(true);
+			after.extend(free_after(vec![probe(&p)]));
+			(before, after)
+		}
+		"boxed" | "retry" | "ref" | "owned" => {
+			macro_rules! coll_guard {
+				($c:expr, $probe:expr) => {{
+					let c = $c;
+					let mut g = c.lock(key);
+					let mut before: Vec<bool> = $probe(&c);
+					match acc {
+						"g_deref_mut" => {
+							for x in g.iter_mut() {
+								**x += 1;
+							}
+						}
+						"g_as_mut" => {
+							for x in g.as_mut().iter_mut() {
+								**x += 1;
+							}
+						}
+						a => guard_ops!(g, a, display = false, mutable = true),
+					}
+					let mut after: Vec<bool> = $probe(&c);
+					drop(g);
+					before.extend(std::iter::repeat(true).take(before.len()));
+					after.extend(free_after($probe(&c)));
+					(before, after)
+				}};
+			}
+			match owner {
+				"boxed" => coll_guard!(BoxedLockCollection::new(mk(n)), |c: &BoxedLockCollection<Vec<Mutex<u32>>>| held_vec(c.child())),
+				"retry" => coll_guard!(RetryingLockCollection::new(mk(n)), |c: &RetryingLockCollection<Vec<Mutex<u32>>>| held_vec(c.child())),
+				"ref" => {
+					let data = mk(n);
+					coll_guard!(RefLockCollection::new(&data), |_c: &RefLockCollection<Vec<Mutex<u32>>>| held_vec(&data))
+				}
+				_ => {
+					// no shared access to the members of an owned collection: the whole collection is probed
+					let probe = |c: &OwnedLockCollection<Vec<Mutex<u32>>>| {
+						vec![std::thread::scope(|s| {
+							s.spawn(|| {
+								let key = ThreadKey::get().unwrap();
+								match c.try_lock(key) {
+									Ok(g) => {
+										drop(g);
+										false
+									}
+									Err(_) => true,
+								}
+							})
+							.join()
+							.unwrap()
+						})]
+					};
+					coll_guard!(OwnedLockCollection::new(mk(n)), probe)
+				}
+			}
+		}
+		o => panic!("owner {o}"),
+	}
+}
+
 pub fn run(line: &str) -> String {
 	let t: Vec<String> = line.split_whitespace().map(|x| x.to_string()).collect();
 	// a <id> <owner> <n> <held> <accessor>
@@ -240,7 +407,7 @@ pub fn run(line: &str) -> String {
 	let (tx, rx) = std::sync::mpsc::channel();
 	// own thread (its key is leaked with the guard); a watchdog turns "the accessor waits" into a result
 	std::thread::spawn(move || {
-		let r = std::panic::catch_unwind(std::panic::AssertUnwindSafe(|| case(&owner, n, &held, &acc)));
+		let r = std::panic::catch_unwind(std::panic::AssertUnwindSafe(|| if held.starts_with('g') { guard_case(&owner, n, &held, &acc) } else { case(&owner, n, &held, &acc) }));
 		let _ = tx.send(r.map_err(|e| {
 			e.downcast_ref::<String>().cloned().or_else(|| e.downcast_ref::<&str>().map(|s| s.to_string())).unwrap_or_default()
 		}));
